@@ -48,4 +48,25 @@ def handleShell : List String → String
     | _, _, _ => "bad-op"
   | _ => "bad-op"
 
+/-- `toolresult <sc|py> <cannotstart|signaled|exited> <code> <stdouthex> <json: N or count>` → `fatal` | `diags n` -/
+def handleToolResult : List String → String
+  | [tool, term, code, out, js] =>
+    match AL.unhex out with
+    | none => "bad-op"
+    | some bytes =>
+      let o : Option ToolOutcome := match term with
+        | "cannotstart" => some .cannotStart
+        | "signaled" => some (.signaled bytes)
+        | "exited" => code.toNat?.map (fun c => .exited c bytes)
+        | _ => none
+      match o with
+      | none => "bad-op"
+      | some o =>
+        let res := if tool = "sc" then shellcheckCallback (fun _ => if js = "N" then none else js.toNat?) o
+                   else pyflakesCallback o
+        match res with
+        | .fatal => "fatal"
+        | .diags n => s!"diags {n}"
+  | _ => "bad-op"
+
 end Driver.ProcD
